@@ -157,7 +157,7 @@ class World:
             (re.compile(r'^m_\w+::<impl at [^>]*>::h(\d+)$'), s._handler),
             (re.compile(r'^m_\w+::<impl at [^>]*>::handle_error$'), s._handle_error),
             (re.compile(r'^m_\w+::<impl at [^>]*>::new$'), s._dev_new),
-            (re.compile(r'^Interface::run$'), s._maybe_abstract_run),
+            (re.compile(r'^Interface::run(_from)?$'), s._maybe_abstract_run),
         ]
         s.abstract_run = None      # set by the C07(a)/C10 checks: stand-in for Interface::run
         s.ex.world = s
